@@ -102,3 +102,12 @@ BUILT['C12'] = (
     "components spanning 1e-6..1e6; residuals 1e-9 relative to the product of operand norms; the polynomial ones are also "
     "discharged symbolically on every run by executing the library on symbols (coverage.symbolic_identities)",
     NOTE, "DESIGN.md 4 C12")
+BUILT['C13'] = (
+    "identity monitor on the real Lie-algebra / adjoint / differential-motion functions against NumPy and longdouble "
+    "references, plus symbolic-valued execution for the linear identities",
+    "skew/vex/skewa/vexa inverses and skew(a)b = a x b on vectors of length 1,3,6 with components 1e-6..1e6 (also symbolically); "
+    "Ad value, homomorphism, inverse, intertwining with vexa(T[S]T^-1), expm(ad S) = Ad(exp S), tr2jac both modes, "
+    "tr2delta/delta2tr round trip, two-argument form, first-order agreement with the logarithm, SE3.Ad/jacob/delta/Delta and "
+    "Twist3.ad/Ad on rigid motions with non-zero translation and non-coordinate rotation axes (so a transposed block or sign "
+    "slip cannot cancel)",
+    NOTE, "DESIGN.md 4 C13")
